@@ -168,6 +168,7 @@ func TestSessionEndCommitsOffsets(t *testing.T) {
 					restarts++
 					continue
 				}
+				firstErr := kgo.AbortingFirstErrPromise(sess.Client()) // documented policy: abort if any produce fails
 				polledTo := map[int32]int64{}
 				var tags []string
 				n := 0
@@ -182,7 +183,7 @@ func TestSessionEndCommitsOffsets(t *testing.T) {
 					}
 					tag := fmt.Sprintf("t%d-k%d", ti, k)
 					tags = append(tags, tag)
-					sess.Produce(ctx, &kgo.Record{Topic: "out", Partition: 0, Value: []byte(tag)}, nil)
+					sess.Produce(ctx, &kgo.Record{Topic: "out", Partition: 0, Value: []byte(tag)}, firstErr.Promise())
 				})
 				if x.Fault != nil {
 					switch x.Fault.Kind {
@@ -200,7 +201,7 @@ func TestSessionEndCommitsOffsets(t *testing.T) {
 					}
 				}
 				try := kgo.TryAbort
-				if x.Commit {
+				if x.Commit && firstErr.Err() == nil {
 					try = kgo.TryCommit
 				}
 				ec, cancel := context.WithTimeout(ctx, 5*time.Minute)
